@@ -41,7 +41,7 @@ FLOORS = {
               "lookalike-str-with-lone-surrogate": 1000, "require-hidden-in-a-literal": 3000,
               "constructs-checked": 10000},
     "thorough": {"accepted-with-ext-constructs": 60000, "removal-cases": 100000, "lookalike-cases": 400000,
-                 "parses-after-extensions-were-registered-by-hand": 600000, "source-walks": 60000,
+                 "parses-after-extensions-were-registered-by-hand": 600000, "source-walks": 20000,
                  "lookalike-str-with-lone-surrogate": 20000,
                  "constructs-checked": 200000},
 }
